@@ -324,8 +324,10 @@ func (k *KDCReqBody) Unmarshal(b []byte) error {
 	}
 	k.KDCOptions = m.KDCOptions
 	if len(k.KDCOptions.Bytes) < 4 {
+		// Flag bit 0 is the most significant bit of the first octet (RFC 4120 section 5.2.8): bits that
+		// were not transmitted are trailing bits, so the padding goes after the bytes received.
 		tb := make([]byte, 4-len(k.KDCOptions.Bytes))
-		k.KDCOptions.Bytes = append(tb, k.KDCOptions.Bytes...)
+		k.KDCOptions.Bytes = append(k.KDCOptions.Bytes, tb...)
 		k.KDCOptions.BitLength = len(k.KDCOptions.Bytes) * 8
 	}
 	k.CName = m.CName
